@@ -1,5 +1,6 @@
 import ExoVerif.Generated.Kernels
 import ExoVerif.Generated.Facts
+import ExoVerif.Generated.SlashSlices
 import ExoVerif.Model.Ledger
 /-! # C04 tie -/
 namespace ExoVerif.Ledger
@@ -15,5 +16,28 @@ theorem C04_tie_slashFromUndelegation (r : URec) (p : Dec) :
 /-- Slash() runs SlashAssets and UpdateOperatorSlashInfo in one cache context and commits after the
 slash info was accepted (what `slashOnce` of C04 models; the repaired defect F-04a) -/
 theorem C04_tie_slash_commit_order : slashCommitAfterInfo = true := by decide
+
+/-- the model's `slashProportion` (what C04_proportion_in_unit_interval is about) is the proportion
+SlashAssets computes: min(1, (power · factor) / value), `value` = StakingAndWaitUnbonding — for all inputs -/
+theorem C04_tie_slashProportion (power : Int) (factor value : Dec) :
+    Gen.slashNewProportion (Gen.slashUSDValueOf power factor) value = Ledger.slashProportion power factor value := rfl
+
+/-- the per-pool cut and remainder of SlashAssets are the model's `cutPool` -/
+theorem C04_tie_poolCut (pl : Pool) (p : Dec) (hl : Bool) :
+    (cutPool pl p hl).2 = Gen.slashPoolCut p pl.amount ∧
+    (cutPool pl p hl).1.amount = Gen.slashPoolRemaining pl.amount (Gen.slashPoolCut p pl.amount) := by
+  unfold cutPool Gen.slashPoolCut Gen.slashPoolRemaining
+  simp only []
+  split <;> exact ⟨rfl, rfl⟩
+
+/-- pending undelegations are slashed exactly when the infraction height is below the current height
+(the model's `if infraction < s.height`) -/
+theorem C04_tie_undelegations_condition (inf h : Nat) :
+    Gen.slashUndelegationsIf (inf : Int) (h : Int) = decide (inf < h) := by
+  unfold Gen.slashUndelegationsIf
+  simp
+
+/-- the operator's value for a slash counts each pool's amount plus its unbonding (pending) amount -/
+theorem C04_tie_value_includes_unbonding (t pnd : Int) : Gen.slashValueBase t pnd = t + pnd := rfl
 
 end ExoVerif.Ledger
